@@ -216,9 +216,9 @@ Lemma v0_is_conf_strip o : v0_is_conf (strip_out o) = v0_is_conf o.
 Proof. reflexivity. Qed.
 
 Lemma v0_read_txout_ser o :
-  wf_out o = true -> v0_wu45 o = true -> v0_read_txout (v0_ser_wu o) = Some (v0_norm_wu o).
+  wf_out o = true -> v0_wufloor o = true -> v0_read_txout (v0_ser_wu o) = Some (v0_norm_wu o).
 Proof.
-  intros W L. unfold v0_read_txout. unfold v0_wu45 in L.
+  intros W L. unfold v0_read_txout. unfold v0_wufloor in L.
   destruct (Nat.ltb_spec (length (v0_ser_wu o)) v0_MinTxOutLen) as [Hlt|Hge]; [lia|].
   pose proof (wf_out_parts o W) as (_ & _ & _ & _ & Hrp & Hsp).
   unfold v0_ser_wu, bind. rewrite (p_out_app o _ W). rewrite v0_is_conf_strip. unfold v0_norm_wu.
@@ -278,23 +278,23 @@ Qed.
 Local Transparent le_dec.
 
 Definition v0_wf_der_vals (d : v0der) : Prop :=
-  dv_fp d < two32 /\ Forall (fun x => x < two32) (dv_path d) /\ dv_path d <> [].
+  dv_fp d < two32 /\ Forall (fun x => x < two32) (dv_path d).
 
 Lemma v0_read_bip32_ser d : v0_wf_der_vals d -> v0_read_bip32 (v0_ser_bip32 d) = Some (dv_fp d, dv_path d).
 Proof.
-  intros (Hf & Hp & Hne). unfold v0_read_bip32, v0_ser_bip32.
+  intros (Hf & Hp). unfold v0_read_bip32, v0_ser_bip32.
   change (le_enc 4 (dv_fp d) ++ concat (map (le_enc 4) (dv_path d)))
     with (concat (map (le_enc 4) (dv_fp d :: dv_path d))).
-  rewrite v0_words_enc by (constructor; assumption). destruct (dv_path d); [congruence | reflexivity].
+  rewrite v0_words_enc by (constructor; assumption). reflexivity.
 Qed.
 
 Lemma v0_read_bip32_inv v fp path : v0_read_bip32 v = Some (fp, path) ->
   v0_ser_bip32 (mk_v0der [] fp path) = v /\ v0_wf_der_vals (mk_v0der [] fp path).
 Proof.
-  unfold v0_read_bip32. destruct (v0_words v) as [[|a [|b l]]|] eqn:E; try discriminate.
+  unfold v0_read_bip32. destruct (v0_words v) as [[|a l]|] eqn:E; try discriminate.
   intro HH; inversion HH; subst. apply v0_words_inv in E as [E1 E2].
   unfold v0_ser_bip32, v0_wf_der_vals. cbn [dv_fp dv_path]. split; [exact E1|].
-  inversion E2; subst. repeat split; [assumption | assumption | discriminate].
+  inversion E2; subst. split; assumption.
 Qed.
 
 Lemma v0_parse_tx_value_ser t : wf_tx t = true -> v0_parse_tx_value (ser_full t) = Some (norm_tx t).
@@ -318,7 +318,7 @@ Lemma step_nwu st t : vi_nwu st = None -> wf_tx t = true ->
 Proof.
   intros H W. unfold v0_in_step. rewrite n8_b8_small by ty_small. rewrite H, (v0_parse_tx_value_ser t W). reflexivity.
 Qed.
-Lemma step_wu st o : vi_wu st = None -> wf_out o = true -> v0_wu45 o = true ->
+Lemma step_wu st o : vi_wu st = None -> wf_out o = true -> v0_wufloor o = true ->
   in_step st [b8 v0_T_WitnessUtxo] (v0_ser_wu o) = Some (v0_set_wu st (Some (v0_norm_wu o))).
 Proof.
   intros H W L. unfold v0_in_step. rewrite n8_b8_small by ty_small. rewrite H, (v0_read_txout_ser o W L). reflexivity.
@@ -362,10 +362,9 @@ Qed.
 
 Lemma wf_der_vals d : v0_wf_der valid_pk d = true -> valid_pk (dv_pk d) = true /\ v0_wf_der_vals d.
 Proof.
-  unfold v0_wf_der, v0_wf_der_vals. rewrite !andb_true_iff. intros [[[[[A _] B] C] D] _].
-  split; [exact A|]. split; [lia|]. split.
-  - apply Forall_forall. intros x Hx. rewrite forallb_forall in C. specialize (C x Hx). lia.
-  - destruct (dv_path d); [discriminate | discriminate].
+  unfold v0_wf_der, v0_wf_der_vals. rewrite !andb_true_iff. intros [[[[A _] B] C] _].
+  split; [exact A|]. split; [lia|].
+  apply Forall_forall. intros x Hx. rewrite forallb_forall in C. specialize (C x Hx). lia.
 Qed.
 
 Lemma fold_ders l : forall st,
@@ -463,7 +462,7 @@ Proof.
   - rewrite <- H, set_nwu_id. reflexivity.
 Qed.
 Lemma seg_wu st x rest : vi_wu st = None ->
-  match x with Some o => wf_out o = true /\ v0_wu45 o = true | None => True end ->
+  match x with Some o => wf_out o = true /\ v0_wufloor o = true | None => True end ->
   v0_fold in_step st ((match x with Some o => [([b8 v0_T_WitnessUtxo], v0_ser_wu o)] | None => [] end) ++ rest)
   = v0_fold in_step (v0_set_wu st (option_map v0_norm_wu x)) rest.
 Proof.
@@ -544,11 +543,11 @@ Ltac btrue' :=
   | H : _ && _ = true |- _ => apply andb_true_iff in H; destruct H
   end.
 
-Lemma in_fold i : v0_wf_in_core valid_pk valid_sig i = true -> v0_wu45_in i = true ->
+Lemma in_fold i : v0_wf_in_core valid_pk valid_sig i = true -> v0_wufloor_in i = true ->
   v0_fold in_step v0_in_empty (v0_in_kvs i) = Some (v0_norm_in i).
 Proof.
   destruct i as [nwu wu sigs sh rd ws ders fs fw unk].
-  unfold v0_wf_in_core, v0_wu45_in, v0_in_kvs, v0_norm_in.
+  unfold v0_wf_in_core, v0_wufloor_in, v0_in_kvs, v0_norm_in.
   cbn [vi_nwu vi_wu vi_sigs vi_sighash vi_redeem vi_wscript vi_ders vi_fsig vi_fwit vi_unk].
   intros W L. btrue'.
   match goal with H : forallb (v0_wf_sig _ _) sigs = true, H' : v0_nodupb _ (map sg_pk sigs) = true |- _ =>
@@ -609,7 +608,7 @@ Qed.
 
 Lemma der_kv_wf ty d : v0_wf_der valid_pk d = true -> v0_wf_kvp (v0_der_kv ty d).
 Proof.
-  unfold v0_wf_der, v0_len_ok. rewrite !andb_true_iff. intros [[[[[_ A] _] _] _] B].
+  unfold v0_wf_der, v0_len_ok. rewrite !andb_true_iff. intros [[[[_ A] _] _] B].
   unfold v0_wf_kvp, v0_der_kv, lenN in *. cbn [fst snd length]. lia.
 Qed.
 
@@ -666,7 +665,7 @@ Proof.
   apply Forall_map_kv. intros d Hd. rewrite forallb_forall in DS. apply der_kv_wf. apply DS; exact Hd.
 Qed.
 
-Lemma in_section_app i rest : v0_wf_in_core valid_pk valid_sig i = true -> v0_wu45_in i = true ->
+Lemma in_section_app i rest : v0_wf_in_core valid_pk valid_sig i = true -> v0_wufloor_in i = true ->
   v0_section in_step v0_in_empty (v0_ser_section (v0_in_kvs i) ++ rest) = Some (v0_norm_in i, rest).
 Proof. intros W L. apply v0_section_app; [apply in_kvs_wf; exact W | apply in_fold; assumption]. Qed.
 
@@ -713,10 +712,22 @@ Lemma wf_core_parts p : wf_core p = true ->
   wf_tx (vp_tx p) = true /\ v0_unsigned_ok (vp_tx p) = true /\ lenN (ser_full (vp_tx p)) <= v0_MaxValLen /\
   length (vp_ins p) = length (t_ins (vp_tx p)) /\ length (vp_outs p) = length (t_outs (vp_tx p)) /\
   forallb (v0_wf_in_core valid_pk valid_sig) (vp_ins p) = true /\ forallb v0_sane (vp_ins p) = true /\
-  forallb (v0_wf_out valid_pk) (vp_outs p) = true.
+  forallb (v0_wf_out valid_pk) (vp_outs p) = true /\ forallb v0_wf_gunk (vp_unk p) = true.
 Proof.
-  unfold v0_wf_core, v0_len_ok. rewrite !andb_true_iff. intros [[[[[[[A B] C] D] E] F] G] H].
-  apply Nat.eqb_eq in D, E. apply N.leb_le in C. repeat split; assumption.
+  unfold v0_wf_core. rewrite !andb_true_iff. intros [[[[[[[[A B] C] D] E] F] G] H] J].
+  apply Nat.eqb_eq in D, E. unfold v0_len_ok in C. apply N.leb_le in C. repeat split; assumption.
+Qed.
+
+(* the loop over global unknowns reads back the pairs written for p.Unknowns *)
+Lemma fold_gunk l : forall acc, v0_fold v0_gunk_step acc (map v0_unk_kv l) = Some (acc ++ l).
+Proof.
+  induction l as [|u l IH]; intro acc; cbn [map v0_fold v0_unk_kv fst snd v0_gunk_step]; [rewrite app_nil_r; reflexivity|].
+  rewrite IH, <- app_assoc. destruct u; reflexivity.
+Qed.
+Lemma gunk_kv_wf u : v0_wf_gunk u = true -> v0_wf_kvp (v0_unk_kv u).
+Proof.
+  unfold v0_wf_gunk, v0_len_ok. rewrite !andb_true_iff. intros [[A B] C].
+  unfold v0_wf_kvp, v0_unk_kv, lenN in *. cbn [fst snd]. destruct (uk_key u); [discriminate|]. cbn [length] in *. lia.
 Qed.
 
 (* C08, first clause: what ToHex/ToBase64 write is accepted by the parsers and yields the packet
@@ -725,8 +736,8 @@ Theorem v0_parse_ser p extra : wf p = true ->
   exists bs, v0_ser p = Some bs /\ parse (bs ++ extra) = Some (v0_norm p).
 Proof.
   unfold v0_wf. intro W. apply andb_true_iff in W as [WC W45].
-  apply wf_core_parts in WC as (Wt & Wu & Wl & Li & Lo & Wi & Ws & Wo).
-  unfold v0_ser. rewrite Ws. eexists. split; [reflexivity|].
+  apply wf_core_parts in WC as (Wt & Wu & Wl & Li & Lo & Wi & Ws & Wo & Wg).
+  unfold v0_wufloor_all in W45. unfold v0_ser. rewrite Ws. eexists. split; [reflexivity|].
   unfold v0_parse, bind. rewrite <- !app_assoc.
   rewrite (take_app_n 5) by reflexivity.
   change (bytes_eqb v0_magic v0_magic) with true. cbn [negb].
@@ -735,18 +746,20 @@ Proof.
   rewrite v0_p_key_app by (unfold lenN, v0_MaxKeyLen; cbn [length]; lia).
   rewrite n8_b8_small by (unfold v0_T_UnsignedTx; lia).
   change (negb (v0_T_UnsignedTx =? v0_T_UnsignedTx)) with false. cbn iota.
-  rewrite v0_p_val_app by exact Wl.
+  cbv beta. rewrite v0_p_val_app by exact Wl.
   rewrite (v0_parse_tx_value_ser _ Wt).
-  change (v0_unsigned_ok (norm_tx (vp_tx p))) with (v0_unsigned_ok (vp_tx p)). rewrite Wu. cbn [negb].
-  cbn [app].
-  change (v0_sep ++ ?x) with (v0_ser_section [] ++ x).
-  rewrite (v0_section_app (v0_gunk_step) [] [] [] _ (Forall_nil _) eq_refl).
+  change (v0_unsigned_ok (norm_tx (vp_tx p))) with (v0_unsigned_ok (vp_tx p)). rewrite Wu. cbn [negb]. cbv beta iota.
+  fold (enc_list v0_kv (map v0_unk_kv (vp_unk p))). rewrite app_assoc.
+  change (enc_list v0_kv (map v0_unk_kv (vp_unk p)) ++ v0_sep) with (v0_ser_section (map v0_unk_kv (vp_unk p))).
+  rewrite (v0_section_app v0_gunk_step (map v0_unk_kv (vp_unk p)) [] (vp_unk p));
+    [| apply Forall_map_kv; intros u Hu; rewrite forallb_forall in Wg; apply gunk_kv_wf; apply Wg; exact Hu
+     | apply (fold_gunk (vp_unk p) []) ].
   change (t_ins (norm_tx (vp_tx p))) with (t_ins (vp_tx p)).
   change (t_outs (norm_tx (vp_tx p))) with (t_outs (vp_tx p)).
   rewrite (v0_sections_app _ (fun i => v0_ser_section (v0_in_kvs i)) v0_norm_in (vp_ins p)); [| | exact Li].
   2:{ intros i Hi r. rewrite forallb_forall in Wi, W45. apply in_section_app; [apply Wi | apply W45]; exact Hi. }
   rewrite (v0_sections_app _ (fun o => v0_ser_section (v0_out_kvs o)) v0_norm_out (vp_outs p)); [| | exact Lo].
-  2:{ intros o Ho r. rewrite forallb_forall in Wo. apply out_section_app; apply Wo; exact Ho. }
+  2:{ intros o Ho r. rewrite forallb_forall in Wo. apply (out_section_app valid_pk valid_sig o r (Wo o Ho)). }
   assert (SN : forallb v0_sane (map v0_norm_in (vp_ins p)) = true).
   { apply forallb_forall. intros x Hx. apply in_map_iff in Hx as [i [<- Hi]].
     apply v0_sane_norm. rewrite forallb_forall in Ws. apply Ws; exact Hi. }
@@ -754,3 +767,728 @@ Proof.
 Qed.
 
 End Packet.
+
+(* ---------- the converse: every accepted packet is inside the wire domain ---------- *)
+Lemma parse_tx_flag v4 f r2 t rest : length v4 = 4%nat -> f < 256 ->
+  parse_tx (v4 ++ b8 f :: r2) = Some (t, rest) -> t_flag t = f.
+Proof.
+  intros L4 Hf. unfold parse_tx, bind. unfold p_le at 1. rewrite (take_app_n 4) by exact L4.
+  rewrite p_u8_app by exact Hf.
+  destruct (p_varint r2) as [[nin r3]|]; [|discriminate].
+  destruct (p_list p_in nin r3) as [[ins r4]|]; [|discriminate].
+  destruct (p_varint r4) as [[nout r5]|]; [|discriminate].
+  destruct (p_list p_out nout r5) as [[outs r6]|]; [|discriminate].
+  destruct (p_le 4 r6) as [[lt r7]|]; [|discriminate].
+  destruct (f =? 1).
+  - destruct (p_list p_in_wit (lenL ins) r7) as [[iw r8]|]; [|discriminate].
+    destruct (p_list p_out_wit (lenL outs) r8) as [[ow r9]|]; [|discriminate].
+    unfold ret. intro HH; inversion HH; reflexivity.
+  - unfold ret. intro HH; inversion HH; reflexivity.
+Qed.
+
+Lemma parse_tx_flag0 v4 f r2 t rest : length v4 = 4%nat -> f < 256 -> f <> 1 ->
+  parse_tx (v4 ++ b8 f :: r2) = Some (t, rest) ->
+  parse_tx (v4 ++ b8 0 :: r2) = Some (mk_tx (t_version t) 0 (t_locktime t) (t_ins t) (t_outs t), rest).
+Proof.
+  intros L4 Hf F1. unfold parse_tx, bind. unfold p_le at 1 3. rewrite !(take_app_n 4) by exact L4.
+  rewrite !p_u8_app by lia.
+  destruct (p_varint r2) as [[nin r3]|]; [|discriminate].
+  destruct (p_list p_in nin r3) as [[ins r4]|]; [|discriminate].
+  destruct (p_varint r4) as [[nout r5]|]; [|discriminate].
+  destruct (p_list p_out nout r5) as [[outs r6]|]; [|discriminate].
+  destruct (p_le 4 r6) as [[lt r7]|]; [|discriminate].
+  destruct (N.eqb_spec f 1); [contradiction|]. change (0 =? 1) with false. cbv iota.
+  unfold ret. intro HH; inversion HH; reflexivity.
+Qed.
+
+Lemma parse_tx_any bs t rest : parse_tx bs = Some (t, rest) ->
+  wf_tx t = true /\ lenN (ser_full t) <= lenN bs.
+Proof.
+  intro H. destruct (canonical_flag t) eqn:C.
+  - split; [exact (parse_tx_wf bs t rest H C)|].
+    apply tx_ser_parse in H; [|exact C]. subst bs. rewrite lenN_app. lia.
+  - pose proof H as H0. unfold parse_tx, bind in H0.
+    destruct (p_le 4 bs) as [[ver r1]|] eqn:P1; [|discriminate].
+    destruct (p_u8 r1) as [[f r2]|] eqn:P2; [|discriminate]. clear H0.
+    apply p_le_inv in P1 as [-> _]. apply p_u8_inv in P2 as [-> Hf].
+    pose proof (parse_tx_flag _ f r2 t rest (le_enc_length 4 ver) Hf H) as TF.
+    assert (F1 : f <> 1). { intro E. unfold canonical_flag in C. rewrite TF, E in C. discriminate. }
+    pose proof (parse_tx_flag0 _ f r2 t rest (le_enc_length 4 ver) Hf F1 H) as H0.
+    set (t0 := mk_tx (t_version t) 0 (t_locktime t) (t_ins t) (t_outs t)) in *.
+    assert (W0 : wf_tx t0 = true) by (apply (parse_tx_wf _ _ _ H0); reflexivity).
+    assert (S0 : ser_full t0 ++ rest = le_enc 4 ver ++ b8 0 :: r2) by (apply (tx_ser_parse _ _ _ H0); reflexivity).
+    assert (HW : has_witness t = has_witness t0).
+    { unfold has_witness, any_witness_input, any_conf_output. cbn [t0 t_flag t_ins t_outs]. rewrite TF.
+      destruct (N.eqb_spec f 1); [contradiction | reflexivity]. }
+    assert (SE : ser_full t = ser_full t0).
+    { unfold ser_full, ser_tx. rewrite HW. reflexivity. }
+    split; [exact W0|]. rewrite SE.
+    assert (LE : lenN (ser_full t0 ++ rest) = lenN (le_enc 4 ver ++ b8 f :: r2)).
+    { rewrite S0. unfold lenN. rewrite !app_length. cbn [length]. reflexivity. }
+    rewrite lenN_app in LE. lia.
+Qed.
+
+Lemma v0_parse_tx_value_wf v t : v0_parse_tx_value v = Some t -> v0_len_ok v0_MaxValLen v = true -> v0_wf_nwu t = true.
+Proof.
+  unfold v0_parse_tx_value. destruct (parse_tx v) as [[t' r]|] eqn:P; [|discriminate].
+  intro HH; inversion HH; subst. apply parse_tx_any in P as [W L]. unfold v0_wf_nwu, v0_len_ok in *.
+  intro LV. rewrite W. apply N.leb_le in LV. apply N.leb_le. lia.
+Qed.
+
+Lemma v0_read_txout_wf v o : v0_read_txout v = Some o -> v0_len_ok v0_MaxValLen v = true -> v0_wf_wu o = true.
+Proof.
+  intros R LV. apply v0_read_txout_inv in R as [W [[rest ->] _]]. unfold v0_wf_wu, v0_len_ok in *.
+  rewrite W. rewrite lenN_app in LV. apply N.leb_le in LV. apply N.leb_le. lia.
+Qed.
+
+Lemma v0_type_gt8 x : x <> 0 -> x <> 1 -> x <> 2 -> x <> 3 -> x <> 4 -> x <> 5 -> x <> 6 -> x <> 7 -> x <> 8 ->
+  v0_known_in_type x = false.
+Proof. intros. unfold v0_known_in_type, v0_T_FinalScriptWitness. apply N.leb_gt. lia. Qed.
+
+Section Inv.
+Variable valid_pk valid_sig : bytes -> bool.
+Notation in_step := (v0_in_step valid_pk valid_sig).
+Notation out_step := (v0_out_step valid_pk).
+Notation wf_in_core := (v0_wf_in_core valid_pk valid_sig).
+
+Ltac btrue2 :=
+  repeat match goal with
+  | H : _ && _ = true |- _ => apply andb_true_iff in H; destruct H
+  end.
+
+Lemma wf_der_intro kd fp path v :
+  valid_pk kd = true -> 1 + lenN kd <= v0_MaxKeyLen -> v0_read_bip32 v = Some (fp, path) ->
+  v0_len_ok v0_MaxValLen v = true -> v0_wf_der valid_pk (mk_v0der kd fp path) = true.
+Proof.
+  intros V K R L. apply v0_read_bip32_inv in R as [E (Hf & Hp)]. cbn [dv_fp dv_path] in *.
+  unfold v0_wf_der. cbn [dv_pk dv_fp dv_path]. rewrite V.
+  change (v0_ser_bip32 (mk_v0der kd fp path)) with (v0_ser_bip32 (mk_v0der [] fp path)). rewrite E, L.
+  rewrite (proj2 (N.leb_le _ _) K), (proj2 (N.ltb_lt _ _) Hf).
+  assert (FB : forallb (fun x => x <? two32) path = true).
+  { apply forallb_forall. intros x Hx. rewrite Forall_forall in Hp. apply N.ltb_lt. apply Hp; exact Hx. }
+  rewrite FB. reflexivity.
+Qed.
+
+Lemma key_len tb kd : lenN (tb :: kd) = 1 + lenN kd.
+Proof. unfold lenN. cbn [length]. lia. Qed.
+
+Ltac proj_all := cbn [vi_nwu vi_wu vi_sigs vi_sighash vi_redeem vi_wscript vi_ders vi_fsig vi_fwit vi_unk
+       v0_set_nwu v0_set_wu v0_set_sigs v0_set_sighash v0_set_redeem v0_set_wscript v0_set_ders v0_set_fsig v0_set_fwit v0_set_unk
+       v0_wf_script].
+
+Lemma in_step_wf st k v st' :
+  wf_in_core st = true -> v0_wf_kvp (k, v) -> in_step st k v = Some st' -> wf_in_core st' = true.
+Proof.
+  intros W [K1 [K2 K3]] S. cbn [fst snd] in *.
+  assert (LV : v0_len_ok v0_MaxValLen v = true) by (unfold v0_len_ok; apply N.leb_le; exact K3).
+  destruct st as [nwu wu sigs sh rd ws ders fs fw unk].
+  unfold v0_in_step in S. destruct k as [|tb kd]; [discriminate|]. rewrite key_len in K1, K2.
+  cbn [vi_nwu vi_wu vi_sigs vi_sighash vi_redeem vi_wscript vi_ders vi_fsig vi_fwit vi_unk
+       v0_set_nwu v0_set_wu v0_set_sigs v0_set_sighash v0_set_redeem v0_set_wscript v0_set_ders v0_set_fsig v0_set_fwit v0_set_unk] in S.
+  unfold v0_wf_in_core in *.
+  cbn [vi_nwu vi_wu vi_sigs vi_sighash vi_redeem vi_wscript vi_ders vi_fsig vi_fwit vi_unk] in W.
+  btrue2.
+  destruct (N.eqb_spec (n8 tb) v0_T_NonWitnessUtxo) as [TE|TN_v0_T_NonWitnessUtxo].
+  { destruct (v0_is_some nwu); [discriminate|]. destruct (negb (v0_no_kd kd)); [discriminate|].
+    destruct (v0_parse_tx_value v) as [t|] eqn:P; [|discriminate]. inversion S; subst.
+    proj_all.
+    rewrite (v0_parse_tx_value_wf v t P LV). rewrite !andb_true_iff. repeat split; assumption. }
+  destruct (N.eqb_spec (n8 tb) v0_T_WitnessUtxo) as [TE|TN_v0_T_WitnessUtxo].
+  { destruct (v0_is_some wu); [discriminate|]. destruct (negb (v0_no_kd kd)); [discriminate|].
+    destruct (v0_read_txout v) as [o|] eqn:P; [|discriminate]. inversion S; subst.
+    proj_all.
+    rewrite (v0_read_txout_wf v o P LV). rewrite !andb_true_iff. repeat split; assumption. }
+  destruct (N.eqb_spec (n8 tb) v0_T_PartialSig) as [TE|TN_v0_T_PartialSig].
+  { destruct (valid_pk kd && valid_sig v) eqn:V; [|discriminate]. cbn [negb] in S.
+    destruct (existsb (fun s => bytes_eqb (sg_pk s) kd) sigs) eqn:E; [discriminate|]. inversion S; subst.
+    proj_all.
+    rewrite forallb_app, map_app. cbn [forallb map sg_pk].
+    assert (WS : v0_wf_sig valid_pk valid_sig (mk_v0sig kd v) = true).
+    { unfold v0_wf_sig. cbn [sg_pk sg_sig]. rewrite V, LV, (proj2 (N.leb_le _ _) K2). reflexivity. }
+    rewrite WS. rewrite (nodupb_snoc bytes_eqb (map sg_pk sigs) kd); [| assumption | rewrite existsb_map_c; exact E].
+    rewrite !andb_true_iff. repeat split; assumption. }
+  destruct (N.eqb_spec (n8 tb) v0_T_Sighash) as [TE|TN_v0_T_Sighash].
+  { destruct (negb (sh =? 0)); [discriminate|]. destruct (negb (v0_no_kd kd)); [discriminate|].
+    destruct (Nat.eqb_spec (length v) 4) as [L4|]; [|discriminate]. cbn [negb] in S. inversion S; subst.
+    proj_all.
+    pose proof (le_dec_bound v) as B. rewrite L4 in B. change (256 ^ N.of_nat 4) with two32 in B.
+    apply N.ltb_lt in B. rewrite B. rewrite !andb_true_iff. repeat split; assumption. }
+  destruct (N.eqb_spec (n8 tb) v0_T_RedeemScript) as [TE|TN_v0_T_RedeemScript].
+  { destruct (v0_is_some rd); [discriminate|]. destruct (negb (v0_no_kd kd)); [discriminate|]. inversion S; subst.
+    proj_all.
+    rewrite LV. rewrite !andb_true_iff. repeat split; assumption. }
+  destruct (N.eqb_spec (n8 tb) v0_T_WitnessScript) as [TE|TN_v0_T_WitnessScript].
+  { destruct (v0_is_some ws); [discriminate|]. destruct (negb (v0_no_kd kd)); [discriminate|]. inversion S; subst.
+    proj_all.
+    rewrite LV. rewrite !andb_true_iff. repeat split; assumption. }
+  destruct (N.eqb_spec (n8 tb) v0_T_Bip32) as [TE|TN_v0_T_Bip32].
+  { destruct (valid_pk kd) eqn:V; [|discriminate]. cbn [negb] in S.
+    destruct (v0_read_bip32 v) as [[fp path]|] eqn:R; [|discriminate].
+    destruct (existsb (fun d => bytes_eqb (dv_pk d) kd) ders) eqn:E; [discriminate|]. inversion S; subst.
+    proj_all.
+    rewrite forallb_app, map_app. cbn [forallb map dv_pk].
+    rewrite (wf_der_intro kd fp path v V K2 R LV).
+    rewrite (nodupb_snoc bytes_eqb (map dv_pk ders) kd); [| assumption | rewrite existsb_map_c; exact E].
+    rewrite !andb_true_iff. repeat split; assumption. }
+  destruct (N.eqb_spec (n8 tb) v0_T_FinalScriptSig) as [TE|TN_v0_T_FinalScriptSig].
+  { destruct (v0_is_some fs); [discriminate|]. destruct (negb (v0_no_kd kd)); [discriminate|]. inversion S; subst.
+    proj_all.
+    rewrite LV. rewrite !andb_true_iff. repeat split; assumption. }
+  destruct (N.eqb_spec (n8 tb) v0_T_FinalScriptWitness) as [TE|TN_v0_T_FinalScriptWitness].
+  { destruct (v0_is_some fw); [discriminate|]. destruct (negb (v0_no_kd kd)); [discriminate|]. inversion S; subst.
+    proj_all.
+    rewrite LV. rewrite !andb_true_iff. repeat split; assumption. }
+  destruct (existsb (fun u => bytes_eqb (uk_key u) (tb :: kd) && bytes_eqb (uk_val u) v) unk) eqn:E; [discriminate|].
+  inversion S; subst.
+  proj_all.
+  rewrite forallb_app. cbn [forallb].
+  rewrite (nodupb_snoc v0_unk_eqb unk (mk_v0unk (tb :: kd) v)); [| assumption | exact E].
+  assert (WU : v0_wf_unk (mk_v0unk (tb :: kd) v) = true).
+  { unfold v0_wf_unk. cbn [uk_key uk_val]. unfold v0_len_ok at 1. rewrite key_len, LV.
+    rewrite (proj2 (N.leb_le _ _) K2).
+    rewrite (v0_type_gt8 (n8 tb)) by assumption. reflexivity. }
+  rewrite WU. rewrite !andb_true_iff. repeat split; assumption.
+Qed.
+
+Lemma out_step_wf o k v o' :
+  v0_wf_out valid_pk o = true -> v0_wf_kvp (k, v) -> out_step o k v = Some o' -> v0_wf_out valid_pk o' = true.
+Proof.
+  intros W [K1 [K2 K3]] S. cbn [fst snd] in *.
+  assert (LV : v0_len_ok v0_MaxValLen v = true) by (unfold v0_len_ok; apply N.leb_le; exact K3).
+  destruct o as [rd ws ders]. unfold v0_out_step in S. destruct k as [|tb kd]; [discriminate|]. rewrite key_len in K1, K2.
+  cbn [vo_redeem vo_wscript vo_ders] in S. unfold v0_wf_out in *. cbn [vo_redeem vo_wscript vo_ders] in W. btrue2.
+  destruct (n8 tb =? v0_TO_RedeemScript).
+  { destruct (v0_is_some rd); [discriminate|]. destruct (negb (v0_no_kd kd)); [discriminate|]. inversion S; subst.
+    cbn [vo_redeem vo_wscript vo_ders v0_wf_script]. rewrite LV. rewrite !andb_true_iff. repeat split; assumption. }
+  destruct (n8 tb =? v0_TO_WitnessScript).
+  { destruct (v0_is_some ws); [discriminate|]. destruct (negb (v0_no_kd kd)); [discriminate|]. inversion S; subst.
+    cbn [vo_redeem vo_wscript vo_ders v0_wf_script]. rewrite LV. rewrite !andb_true_iff. repeat split; assumption. }
+  destruct (n8 tb =? v0_TO_Bip32); [|discriminate].
+  destruct (valid_pk kd) eqn:V; [|discriminate]. cbn [negb] in S.
+  destruct (v0_read_bip32 v) as [[fp path]|] eqn:R; [|discriminate].
+  destruct (existsb (fun d => bytes_eqb (dv_pk d) kd) ders) eqn:E; [discriminate|]. inversion S; subst.
+  cbn [vo_redeem vo_wscript vo_ders]. rewrite forallb_app, map_app. cbn [forallb map dv_pk].
+  rewrite (wf_der_intro kd fp path v V K2 R LV).
+  rewrite (nodupb_snoc bytes_eqb (map dv_pk ders) kd); [| assumption | rewrite existsb_map_c; exact E].
+  rewrite !andb_true_iff. repeat split; assumption.
+Qed.
+
+Lemma fold_inv {St} (step : St -> bytes -> bytes -> option St) (P : St -> Prop) :
+  (forall st k v st', P st -> v0_wf_kvp (k, v) -> step st k v = Some st' -> P st') ->
+  forall l st st', P st -> Forall v0_wf_kvp l -> v0_fold step st l = Some st' -> P st'.
+Proof.
+  intros Hs. induction l as [|[k v] l IH]; intros st st' Pst W F; cbn [v0_fold fst snd] in F.
+  - inversion F; subst; exact Pst.
+  - inversion W as [|? ? Wk Wl]; subst. destruct (step st k v) as [st1|] eqn:S1; [|discriminate].
+    apply (IH st1 st' (Hs _ _ _ _ Pst Wk S1) Wl F).
+Qed.
+
+Lemma in_section_wf bs i rest :
+  v0_section in_step v0_in_empty bs = Some (i, rest) -> wf_in_core i = true.
+Proof.
+  unfold v0_section. intro H. apply v0_p_section_inv in H as [l [F [W _]]].
+  apply (fold_inv in_step (fun s => wf_in_core s = true) in_step_wf l v0_in_empty i eq_refl W F).
+Qed.
+Lemma out_section_wf bs o rest :
+  v0_section out_step v0_out_empty bs = Some (o, rest) -> v0_wf_out valid_pk o = true.
+Proof.
+  unfold v0_section. intro H. apply v0_p_section_inv in H as [l [F [W _]]].
+  apply (fold_inv out_step (fun s => v0_wf_out valid_pk s = true) out_step_wf l v0_out_empty o eq_refl W F).
+Qed.
+
+Lemma sections_all {St X} (p : parser St) (Q : St -> bool) :
+  (forall bs a r, p bs = Some (a, r) -> Q a = true) ->
+  forall (xs : list X) bs l rest, v0_sections p xs bs = Some (l, rest) -> forallb Q l = true.
+Proof.
+  intro Hp. induction xs as [|x xs IH]; intros bs l rest; cbn [v0_sections]; unfold bind, ret.
+  - intro HH; inversion HH; reflexivity.
+  - destruct (p bs) as [[a r]|] eqn:P; [|discriminate].
+    destruct (v0_sections p xs r) as [[b r']|] eqn:E; [|discriminate].
+    intro HH; inversion HH; subst. cbn [forallb]. rewrite (Hp _ _ _ P), (IH _ _ _ E). reflexivity.
+Qed.
+
+Lemma gunk_step_wf st k v st' :
+  forallb v0_wf_gunk st = true -> v0_wf_kvp (k, v) -> v0_gunk_step st k v = Some st' -> forallb v0_wf_gunk st' = true.
+Proof.
+  intros W [K1 [K2 K3]] S. cbn [fst snd] in *. unfold v0_gunk_step in S. inversion S; subst.
+  rewrite forallb_app, W. cbn [forallb andb]. unfold v0_wf_gunk, v0_len_ok. cbn [uk_key uk_val].
+  rewrite (proj2 (N.leb_le _ _) K2), (proj2 (N.leb_le _ _) K3).
+  destruct k; [unfold lenN in K1; cbn in K1; lia | reflexivity].
+Qed.
+
+(* everything the parser accepts lies in the wire domain (except the 44-byte floor, see v0_wufloor) *)
+Theorem v0_parse_wf bs p : v0_parse valid_pk valid_sig bs = Some p -> v0_wf_core valid_pk valid_sig p = true.
+Proof.
+  unfold v0_parse, bind.
+  destruct (take 5 bs) as [[m r0]|]; [|discriminate].
+  destruct (negb (bytes_eqb m v0_magic)); [discriminate|].
+  destruct (v0_p_key r0) as [[[[|tb [|? ?]]|] r1]|]; try discriminate.
+  destruct (negb (n8 tb =? v0_T_UnsignedTx)); [discriminate|].
+  destruct (v0_p_val r1) as [[v r2]|] eqn:PV; [|discriminate].
+  destruct (v0_parse_tx_value v) as [t|] eqn:PT; [|discriminate].
+  destruct (v0_unsigned_ok t) eqn:U; [|discriminate]. cbn [negb].
+  destruct (v0_section v0_gunk_step [] r2) as [[unk r3]|] eqn:SG; [|discriminate].
+  destruct (v0_sections (v0_section in_step v0_in_empty) (t_ins t) r3) as [[ins r4]|] eqn:SI; [|discriminate].
+  destruct (v0_sections (v0_section out_step v0_out_empty) (t_outs t) r4) as [[outs r5]|] eqn:SO; [|discriminate].
+  destruct (forallb v0_sane ins) eqn:SA; [|discriminate]. unfold ret. intro HH; inversion HH; subst. clear HH.
+  apply v0_p_val_inv in PV as [_ LV].
+  assert (LV' : v0_len_ok v0_MaxValLen v = true) by (unfold v0_len_ok; apply N.leb_le; exact LV).
+  pose proof (v0_parse_tx_value_wf v t PT LV') as WN. unfold v0_wf_nwu in WN. apply andb_true_iff in WN as [WT WL].
+  unfold v0_wf_core. cbn [vp_tx vp_ins vp_outs]. rewrite WT, U, WL, SA.
+  rewrite (v0_sections_length _ _ _ _ _ SI), (v0_sections_length _ _ _ _ _ SO), !Nat.eqb_refl.
+  rewrite (sections_all _ wf_in_core in_section_wf _ _ _ _ SI).
+  rewrite (sections_all _ (v0_wf_out valid_pk) out_section_wf _ _ _ _ SO). cbn [andb vp_unk].
+  unfold v0_section in SG. apply v0_p_section_inv in SG as [l [F [W _]]].
+  apply (fold_inv v0_gunk_step (fun s => forallb v0_wf_gunk s = true) gunk_step_wf l [] unk eq_refl W F).
+Qed.
+
+(* C08, second clause in its general form: parse, serialize, parse lands on the v0_norm image of
+   the first parse, for every accepted byte string whose witness UTXOs re-serialize to at least
+   44 bytes (the floor readTxOut applies to the value, not to what it consumed; it only bites on
+   null-valued outputs, v0_wufloor_nonnull) *)
+Theorem v0_parse_ser_parse bs p : v0_parse valid_pk valid_sig bs = Some p -> v0_wufloor_all p = true ->
+  exists bs', v0_ser p = Some bs' /\ v0_parse valid_pk valid_sig bs' = Some (v0_norm p).
+Proof.
+  intros P L. pose proof (v0_parse_wf bs p P) as W.
+  destruct (v0_parse_ser valid_pk valid_sig p [] ) as [bs' [S R]]; [unfold v0_wf; rewrite W, L; reflexivity|].
+  exists bs'. rewrite app_nil_r in R. split; assumption.
+Qed.
+
+End Inv.
+
+(* ---------- when the hop is the identity ---------- *)
+Lemma v0_flag_canon_norm t : v0_flag_canon t = true -> norm_tx t = t.
+Proof. unfold v0_flag_canon, norm_tx. intro H. apply N.eqb_eq in H. destruct t; cbn in *. rewrite <- H. reflexivity. Qed.
+Lemma v0_wu_canon_norm o : v0_wu_canon o = true -> v0_norm_wu o = o.
+Proof.
+  unfold v0_wu_canon, v0_norm_wu. destruct (v0_is_conf o); [reflexivity|]. cbn [orb].
+  destruct o as [a v s n rp sp]; cbn. destruct rp, sp; cbn; try discriminate; reflexivity.
+Qed.
+Lemma v0_canon_in_norm i : v0_canon_in i = true -> v0_norm_in i = i.
+Proof.
+  destruct i as [nwu wu sigs sh rd ws ders fs fw unk]. unfold v0_canon_in, v0_norm_in.
+  cbn [vi_nwu vi_wu vi_sigs vi_sighash vi_redeem vi_wscript vi_ders vi_fsig vi_fwit vi_unk].
+  intro H. rewrite !andb_true_iff in H. destruct H as [[A B] C].
+  assert (EA : option_map norm_tx nwu = nwu) by (destruct nwu; [cbn; rewrite v0_flag_canon_norm by exact A|]; reflexivity).
+  assert (EB : option_map v0_norm_wu wu = wu) by (destruct wu; [cbn; rewrite v0_wu_canon_norm by exact B|]; reflexivity).
+  rewrite EA, EB. destruct (v0_finalized _).
+  - rewrite !andb_true_iff in C. destruct C as [[[[C1 C2] C3] C4] C5]. apply N.eqb_eq in C2. subst sh.
+    destruct sigs, rd, ws, ders; try discriminate. reflexivity.
+  - apply andb_true_iff in C as [C1 C2]. rewrite (v0_sort_sorted _ _ C1), (v0_sort_sorted _ _ C2). reflexivity.
+Qed.
+Lemma map_id_on {A} (f : A -> A) l : (forall a, In a l -> f a = a) -> map f l = l.
+Proof. induction l as [|a l IH]; intro H; cbn; [reflexivity|]. rewrite H by (left; reflexivity). rewrite IH; [reflexivity | intros; apply H; right; assumption]. Qed.
+
+Theorem v0_canon_norm p : v0_canon p = true -> v0_norm p = p.
+Proof.
+  destruct p as [t ins outs unk]. unfold v0_canon, v0_norm. cbn [vp_tx vp_ins vp_outs vp_unk].
+  intro H. rewrite !andb_true_iff in H. destruct H as [[A C] D].
+  rewrite (v0_flag_canon_norm t A).
+  rewrite (map_id_on v0_norm_in ins), (map_id_on v0_norm_out outs); [reflexivity | |].
+  - intros o Ho. rewrite forallb_forall in D. specialize (D o Ho). destruct o as [rd ws ders].
+    unfold v0_norm_out. cbn [vo_redeem vo_wscript vo_ders] in *. rewrite (v0_sort_sorted _ _ D). reflexivity.
+  - intros i Hi. rewrite forallb_forall in C. apply v0_canon_in_norm. apply C; exact Hi.
+Qed.
+
+(* ... and is the identity whenever the parsed packet is canonical (sorted sets, derived flags, no
+   signing fields beside a final script) *)
+Theorem v0_parse_ser_parse_id valid_pk valid_sig bs p : v0_parse valid_pk valid_sig bs = Some p -> v0_wufloor_all p = true ->
+  v0_canon p = true -> exists bs', v0_ser p = Some bs' /\ v0_parse valid_pk valid_sig bs' = Some p.
+Proof.
+  intros P L C. destruct (v0_parse_ser_parse valid_pk valid_sig bs p P L) as [bs' [S R]]. exists bs'.
+  rewrite (v0_canon_norm p C) in R. split; assumption.
+Qed.
+
+(* ---------- what one hop keeps, field by field ---------- *)
+Definition v0_wu_kept (o o' : txout) : Prop :=
+  o_asset o' = o_asset o /\ o_value o' = o_value o /\ o_script o' = o_script o /\ o_nonce o' = o_nonce o /\
+  (v0_is_conf o = true -> o_rp o' = o_rp o /\ o_sp o' = o_sp o).
+Definition v0_tx_kept (t t' : tx) : Prop :=
+  t_version t' = t_version t /\ t_locktime t' = t_locktime t /\ t_ins t' = t_ins t /\ t_outs t' = t_outs t /\
+  ser_full t' = ser_full t.
+Definition v0_in_kept (i j : v0in) : Prop :=
+  vi_unk j = vi_unk i /\ vi_fsig j = vi_fsig i /\ vi_fwit j = vi_fwit i /\
+  match vi_nwu i, vi_nwu j with Some t, Some t' => v0_tx_kept t t' | None, None => True | _, _ => False end /\
+  match vi_wu i, vi_wu j with Some o, Some o' => v0_wu_kept o o' | None, None => True | _, _ => False end /\
+  (v0_finalized i = false ->
+     Permutation (vi_sigs j) (vi_sigs i) /\ vi_sighash j = vi_sighash i /\
+     vi_redeem j = vi_redeem i /\ vi_wscript j = vi_wscript i /\ Permutation (vi_ders j) (vi_ders i)).
+Definition v0_out_kept (o o' : v0out) : Prop :=
+  vo_redeem o' = vo_redeem o /\ vo_wscript o' = vo_wscript o /\ Permutation (vo_ders o') (vo_ders o).
+
+Lemma norm_tx_kept t : v0_tx_kept t (norm_tx t).
+Proof.
+  unfold v0_tx_kept, norm_tx. cbn [t_version t_locktime t_ins t_outs]. repeat split.
+  unfold ser_full, ser_tx. cbn [t_version t_locktime t_ins t_outs].
+  assert (HW : has_witness (mk_tx (t_version t) (if has_witness t then 1 else 0) (t_locktime t) (t_ins t) (t_outs t)) = has_witness t).
+  { unfold has_witness at 1. cbn [t_flag]. unfold any_witness_input, any_conf_output. cbn [t_ins t_outs].
+    destruct (has_witness t) eqn:E; [reflexivity|]. unfold has_witness in E.
+    apply orb_false_iff in E as [E1 E2]. apply orb_false_iff in E1 as [_ E1].
+    unfold any_witness_input, any_conf_output in *. rewrite E1, E2. reflexivity. }
+  rewrite HW. reflexivity.
+Qed.
+
+Lemma norm_in_kept i : v0_in_kept i (v0_norm_in i).
+Proof.
+  destruct i as [nwu wu sigs sh rd ws ders fs fw unk]. unfold v0_in_kept, v0_norm_in.
+  cbn [vi_nwu vi_wu vi_sigs vi_sighash vi_redeem vi_wscript vi_ders vi_fsig vi_fwit vi_unk].
+  repeat split.
+  - destruct nwu; cbn; [apply norm_tx_kept | exact I].
+  - destruct wu as [o|]; cbn; [|exact I]. unfold v0_wu_kept, v0_norm_wu.
+    destruct (v0_is_conf o); cbn [o_asset o_value o_script o_nonce o_rp o_sp]; repeat split; discriminate.
+  - rewrite H. apply v0_sort_perm.
+  - rewrite H. reflexivity.
+  - rewrite H. reflexivity.
+  - rewrite H. reflexivity.
+  - rewrite H. apply v0_sort_perm.
+Qed.
+
+Theorem v0_fields_preserved valid_pk valid_sig p : v0_wf valid_pk valid_sig p = true ->
+  exists bs q, v0_ser p = Some bs /\ v0_parse valid_pk valid_sig bs = Some q /\
+    v0_tx_kept (vp_tx p) (vp_tx q) /\ Forall2 v0_in_kept (vp_ins p) (vp_ins q) /\
+    Forall2 v0_out_kept (vp_outs p) (vp_outs q).
+Proof.
+  intro W. destruct (v0_parse_ser valid_pk valid_sig p [] W) as [bs [S R]]. rewrite app_nil_r in R.
+  exists bs, (v0_norm p). repeat split; try assumption; unfold v0_norm; cbn [vp_tx vp_ins vp_outs].
+  - apply norm_tx_kept.
+  - induction (vp_ins p); cbn; constructor; [apply norm_in_kept | assumption].
+  - induction (vp_outs p) as [|o l IH]; cbn; constructor; [|exact IH].
+    unfold v0_out_kept, v0_norm_out. cbn [vo_redeem vo_wscript vo_ders]. repeat split. apply v0_sort_perm.
+Qed.
+
+(* ---------- concrete packets: hypotheses are satisfiable, and where the identity fails ---------- *)
+Definition ex_yes (_ : bytes) : bool := true.
+Definition ex_h32 : bytes := repeat x00 32.
+Definition ex_tx0 : tx := mk_tx 2 0 0 [] [].
+Definition ex_tx1 : tx := mk_tx 2 0 0 [mk_in ex_h32 0 4294967295 [] [] false [] None [] []] [].
+Definition ex_out_conf : txout :=
+  mk_out (x0a :: ex_h32) (x08 :: ex_h32) [x00; x14] (x02 :: ex_h32) [x01; x02; x03] [x04].
+Definition ex_in_full : v0in :=
+  mk_v0in None (Some ex_out_conf) [mk_v0sig [x03; x01] [x30; x41]; mk_v0sig [x02; x09] [x30; x01]] 0x41
+    (Some [x51]) (Some []) [mk_v0der [x02] 7 [0x80000000; 1]] None None [mk_v0unk [xfc; x01] [x09]].
+Definition ex_p_full : v0pset := mk_v0pset ex_tx1 [ex_in_full] [] [].
+
+Example ex_full_wf : v0_wf ex_yes ex_yes ex_p_full = true.
+Proof. vm_compute. reflexivity. Qed.
+(* a non-trivial packet meeting the hypotheses of v0_parse_ser: confidential witness UTXO with proofs,
+   two unsorted signatures, sighash ALL|RANGEPROOF (0x41), scripts, a derivation and an unknown *)
+Example ex_full_roundtrip :
+  exists bs, v0_ser ex_p_full = Some bs /\ v0_parse ex_yes ex_yes bs = Some (v0_norm ex_p_full) /\
+             vi_wu (hd v0_in_empty (vp_ins (v0_norm ex_p_full))) = Some ex_out_conf /\
+             vi_sighash (hd v0_in_empty (vp_ins (v0_norm ex_p_full))) = 0x41.
+Proof. eexists. split; [vm_compute; reflexivity|]. split; vm_compute; split; reflexivity. Qed.
+
+Definition v0_stream (secs : list (list (bytes * bytes))) : bytes :=
+  v0_magic ++ concat (map v0_ser_section secs).
+
+(* FULL STATEMENT of the second clause (refuted by the model of the code as it is):
+     forall bs p, v0_parse bs = Some p -> exists bs', v0_ser p = Some bs' /\ v0_parse bs' = Some p.
+   Proved instead: v0_parse_ser_parse (image is v0_norm p, under v0_wufloor_all),
+   v0_parse_ser_parse_id (identity on canonical images) and v0_canon_norm. *)
+Definition v0_psp_fails (bs : bytes) : Prop :=
+  exists p, v0_parse ex_yes ex_yes bs = Some p /\
+  forall bs', v0_ser p = Some bs' -> v0_parse ex_yes ex_yes bs' <> Some p.
+Definition v0_psp_holds (bs : bytes) : Prop :=
+  exists p bs', v0_parse ex_yes ex_yes bs = Some p /\ v0_ser p = Some bs' /\ v0_parse ex_yes ex_yes bs' = Some p.
+
+Ltac psp_refute :=
+  eexists; split; [vm_compute; reflexivity|];
+  intros bs' S; vm_compute in S; inversion S; subst; vm_compute; discriminate.
+Ltac psp_hold :=
+  eexists; eexists; split; [vm_compute; reflexivity|]; split; [vm_compute; reflexivity | vm_compute; reflexivity].
+
+(* former suspect s (repaired by 88a2d94): a global unknown pair is written back *)
+Example v0_psp_global_unknown :
+  v0_psp_holds (v0_stream [[([x00], ser_full ex_tx0); ([xfc; x01], [x02])]]).
+Proof. psp_hold. Qed.
+
+(* repaired by 2b1b006: a 45-byte witness UTXO value = 44 meaningful bytes + 1 ignored byte
+   re-serializes to 44 bytes, which readTxOut now accepts *)
+Example v0_psp_wu44 :
+  v0_psp_holds (v0_stream [[([x00], ser_full ex_tx1)];
+                           [([x01], (x01 :: ex_h32) ++ (x01 :: repeat x00 8) ++ [x00; x00] ++ [xff])]]).
+Proof. psp_hold. Qed.
+
+(* still failing: a final script next to signing fields: the signing fields are not written *)
+Theorem v0_psp_refuted_finalized :
+  v0_psp_fails (v0_stream [[([x00], ser_full ex_tx1)]; [([x04], [x51]); ([x07], [x00])]]).
+Proof. psp_refute. Qed.
+
+(* what is left of the floor: a witness UTXO whose value is the one-byte null value 0x00 with an
+   empty script is 36 bytes long; padded to 44 it is accepted, re-serialized it is rejected *)
+Theorem v0_psp_refuted_null_value_floor :
+  v0_psp_fails (v0_stream [[([x00], ser_full ex_tx1)];
+                           [([x01], (x01 :: ex_h32) ++ [x00; x00; x00] ++ repeat xff 8)]]).
+Proof. psp_refute. Qed.
+
+(* FULL STATEMENT of the first clause (refuted): for every packet p the roles can produce,
+     exists bs, v0_ser p = Some bs /\ v0_parse bs = Some p   (fields identical).
+   Proved instead: v0_parse_ser / v0_fields_preserved under v0_wf, and v0_reach_roundtrip below. *)
+Definition ex_out_nullnonce : txout :=
+  mk_out (x0a :: ex_h32) (x08 :: ex_h32) [x00; x14] [x00] [x01; x02; x03] [x04].
+Definition ex_p_nullnonce : v0pset :=
+  mk_v0pset ex_tx1 [mk_v0in None (Some ex_out_nullnonce) [] 0 None None [] None None []] [] [].
+(* null-nonce witness UTXO carrying proofs: inside v0_wf, round-trips, and loses both proofs *)
+Theorem v0_roundtrip_refuted_null_nonce_proofs :
+  v0_wf ex_yes ex_yes ex_p_nullnonce = true /\
+  exists bs q, v0_ser ex_p_nullnonce = Some bs /\ v0_parse ex_yes ex_yes bs = Some q /\
+    option_map o_rp (vi_wu (hd v0_in_empty (vp_ins q))) = Some [] /\
+    option_map o_rp (vi_wu (hd v0_in_empty (vp_ins ex_p_nullnonce))) = Some [x01; x02; x03].
+Proof.
+  split; [vm_compute; reflexivity|]. eexists. eexists. split; [vm_compute; reflexivity|].
+  split; [vm_compute; reflexivity|]. split; vm_compute; reflexivity.
+Qed.
+
+(* former suspect x (repaired by 2b1b006): a derivation with an empty path round-trips *)
+Definition ex_p_emptypath : v0pset :=
+  mk_v0pset ex_tx1 [mk_v0in None None [] 0 None None [mk_v0der [x02] 7 []] None None []] [] [].
+Example v0_roundtrip_empty_path :
+  v0_wf ex_yes ex_yes ex_p_emptypath = true /\
+  exists bs, v0_ser ex_p_emptypath = Some bs /\ v0_parse ex_yes ex_yes bs = Some ex_p_emptypath.
+Proof. split; [vm_compute; reflexivity|]. eexists. split; [vm_compute; reflexivity | vm_compute; reflexivity]. Qed.
+
+(* repaired by 2b1b006: a witness UTXO with explicit value, null nonce and empty script (44 bytes) *)
+Definition ex_p_wu44 : v0pset :=
+  mk_v0pset ex_tx1 [mk_v0in None (Some (mk_out (x01 :: ex_h32) (x01 :: repeat x00 8) [] [x00] [] [])) [] 0 None None [] None None []] [] [].
+Example v0_roundtrip_wu44 :
+  v0_wf ex_yes ex_yes ex_p_wu44 = true /\
+  exists bs, v0_ser ex_p_wu44 = Some bs /\ v0_parse ex_yes ex_yes bs = Some ex_p_wu44.
+Proof. split; [vm_compute; reflexivity|]. eexists. split; [vm_compute; reflexivity | vm_compute; reflexivity]. Qed.
+
+(* a packet with global unknowns (any key type, duplicates allowed) round-trips with them *)
+Definition ex_p_gunk : v0pset :=
+  mk_v0pset ex_tx0 [] [] [mk_v0unk [xfc; x01] [x02]; mk_v0unk [x00; x07] []; mk_v0unk [xfc; x01] [x02]].
+Example v0_roundtrip_global_unknowns :
+  v0_wf ex_yes ex_yes ex_p_gunk = true /\
+  exists bs, v0_ser ex_p_gunk = Some bs /\ v0_parse ex_yes ex_yes bs = Some ex_p_gunk.
+Proof. split; [vm_compute; reflexivity|]. eexists. split; [vm_compute; reflexivity | vm_compute; reflexivity]. Qed.
+
+(* the 44-byte floor only concerns null-valued outputs *)
+Lemma v0_wufloor_nonnull o : wf_out o = true ->
+  match o_value o with v :: _ => negb (n8 v =? 0) | [] => false end = true -> v0_wufloor o = true.
+Proof.
+  intros W NN. apply wf_out_parts in W as (Ha & Hv & Hn & _).
+  unfold v0_wufloor, v0_ser_wu, ser_out, v0_MinTxOutLen. rewrite !app_length.
+  destruct (o_asset o) as [|a ar]; [discriminate|]. cbn [is_asset] in Ha. apply andb_true_iff in Ha as [_ La].
+  apply Nat.eqb_eq in La.
+  destruct (o_value o) as [|v vr]; [discriminate|]. cbn [is_value] in Hv. apply negb_true_iff in NN. rewrite NN in Hv.
+  assert (Lv : (8 <= length vr)%nat).
+  { destruct (n8 v =? 1); [apply Nat.eqb_eq in Hv; lia|].
+    destruct ((n8 v =? 8) || (n8 v =? 9)); [apply Nat.eqb_eq in Hv; lia | discriminate]. }
+  destruct (o_nonce o) as [|n nr]; [discriminate|].
+  pose proof (var_slice_nonempty (o_script o)) as NE. destruct (var_slice (o_script o)); [congruence|].
+  cbn [length app]. apply Nat.leb_le. lia.
+Qed.
+
+(* ---------- reachability envelope: what creator / updater / signer / finalizer can build ----------
+   The roles are abstracted to their effect on the codec-relevant state of one input or output,
+   each with the guard the Go code applies (btcec validity, duplicate-key tests, SanityCheck) and
+   with the domain condition on the caller's argument that the wire format needs (lengths, Elements
+   value/asset/nonce shapes, a non-empty derivation path, a witness UTXO of at least 45 bytes whose
+   proofs come with a confidential nonce).  Arguments outside that domain are exactly the known
+   findings / wf exclusions; role order is creator, then updater/signer on non-finalized inputs,
+   then finalizer (which clears the signing fields, finalizer.go). *)
+Section Reach.
+Variable valid_pk valid_sig : bytes -> bool.
+
+Definition v0_cleared (i : v0in) : bool :=
+  negb (nonempty (vi_sigs i)) && (vi_sighash i =? 0) && negb (v0_is_some (vi_redeem i)) &&
+  negb (v0_is_some (vi_wscript i)) && negb (nonempty (vi_ders i)).
+Definition v0_inv_in (i : v0in) : bool :=
+  v0_wf_in_core valid_pk valid_sig i && v0_sane i && v0_wufloor_in i &&
+  match vi_wu i with Some o => v0_wu_canon o | None => true end &&
+  (if v0_finalized i then v0_cleared i else true).
+
+Inductive v0_in_op : v0in -> v0in -> Prop :=
+| O_nwu i t : v0_finalized i = false -> v0_wf_nwu t = true -> vi_wu i = None -> vi_wscript i = None ->
+    v0_in_op i (v0_set_nwu i (Some t))                                   (* AddInNonWitnessUtxo + SanityCheck *)
+| O_wu i o : v0_finalized i = false -> v0_wf_wu o = true -> v0_wufloor o = true -> v0_wu_canon o = true ->
+    vi_nwu i = None -> v0_in_op i (v0_set_wu i (Some o))                 (* AddInWitnessUtxo + SanityCheck *)
+| O_to_witness i o : v0_finalized i = false -> v0_wf_wu o = true -> v0_wufloor o = true -> v0_wu_canon o = true ->
+    v0_in_op i (v0_set_wu (v0_set_nwu i None) (Some o))                  (* nonWitnessToWitness *)
+| O_sig i s : v0_finalized i = false -> v0_wf_sig valid_pk valid_sig s = true ->
+    existsb (fun x => bytes_eqb (sg_pk x) (sg_pk s)) (vi_sigs i) = false ->
+    v0_in_op i (v0_set_sigs i (vi_sigs i ++ [s]))                        (* addPartialSignature *)
+| O_sighash i x : v0_finalized i = false -> x < two32 -> v0_in_op i (v0_set_sighash i x)
+| O_redeem i s : v0_finalized i = false -> v0_len_ok v0_MaxValLen s = true -> v0_in_op i (v0_set_redeem i (Some s))
+| O_wscript i s : v0_finalized i = false -> v0_len_ok v0_MaxValLen s = true -> v0_is_some (vi_wu i) = true ->
+    v0_in_op i (v0_set_wscript i (Some s))                               (* AddInWitnessScript + SanityCheck *)
+| O_der i d : v0_finalized i = false -> v0_wf_der valid_pk d = true ->
+    existsb (fun x => bytes_eqb (dv_pk x) (dv_pk d)) (vi_ders i) = false ->
+    v0_in_op i (v0_set_ders i (vi_ders i ++ [d]))                        (* AddInBip32Derivation *)
+| O_unk i u : v0_wf_unk u = true -> existsb (fun x => v0_unk_eqb x u) (vi_unk i) = false ->
+    v0_in_op i (v0_set_unk i (vi_unk i ++ [u]))                          (* Inputs[i].Unknowns = append(...) *)
+| O_finalize i fs fw : v0_finalized i = false -> v0_is_some fs || v0_is_some fw = true ->
+    v0_wf_script fs = true -> v0_wf_script fw = true -> (v0_is_some fw = true -> v0_is_some (vi_wu i) = true) ->
+    v0_in_op i (mk_v0in (vi_nwu i) (vi_wu i) [] 0 None None [] fs fw []). (* finalize*Input: NewPsetInput + final scripts *)
+
+Ltac btrue3 :=
+  repeat match goal with
+  | H : _ && _ = true |- _ => apply andb_true_iff in H; destruct H
+  end.
+Ltac proj3 := cbn [vi_nwu vi_wu vi_sigs vi_sighash vi_redeem vi_wscript vi_ders vi_fsig vi_fwit vi_unk
+       v0_set_nwu v0_set_wu v0_set_sigs v0_set_sighash v0_set_redeem v0_set_wscript v0_set_ders v0_set_fsig v0_set_fwit v0_set_unk
+       v0_wf_script v0_is_some negb andb orb forallb map nonempty] in *.
+
+Lemma v0_in_op_inv i j : v0_in_op i j -> v0_inv_in i = true -> v0_inv_in j = true.
+Proof.
+  intros Op I. unfold v0_inv_in in I. btrue3.
+  assert (FF : forall k, v0_finalized k = false -> (if v0_finalized k then v0_cleared k else true) = true)
+    by (intros k E; rewrite E; reflexivity).
+  destruct Op as [i t F Wt Ewu Ews | i o F Wo L C En | i o F Wo L C | i s F Ws E | i x F Hx | i s F Ls | i s F Ls Hw
+                 | i d F Wd E | i u Wu E | i fs fw F Hf Wfs Wfw Hsw];
+  destruct i as [nwu wu sigs sh rd ws ders fsg fwt unk];
+  unfold v0_inv_in, v0_wf_in_core, v0_sane, v0_wufloor_in, v0_finalized, v0_cleared in *; proj3; btrue3; subst.
+  - rewrite F, Wt. proj3. rewrite !andb_true_iff. repeat split; assumption.
+  - rewrite F, Wo, L, C. proj3. rewrite !andb_true_iff. repeat split; assumption.
+  - rewrite F, Wo, L, C. proj3. rewrite !andb_true_iff. repeat split; assumption.
+  - rewrite F. rewrite forallb_app, map_app. proj3. rewrite Ws.
+    rewrite (nodupb_snoc bytes_eqb (map sg_pk sigs) (sg_pk s)); [| assumption | rewrite existsb_map_c; exact E].
+    rewrite !andb_true_iff. repeat split; assumption.
+  - rewrite F. rewrite (proj2 (N.ltb_lt _ _) Hx). rewrite !andb_true_iff. repeat split; assumption.
+  - rewrite F, Ls. rewrite !andb_true_iff. repeat split; assumption.
+  - rewrite F, Ls. destruct wu; [|discriminate]. proj3. rewrite !andb_true_iff. repeat split; assumption.
+  - rewrite F. rewrite forallb_app, map_app. proj3. rewrite Wd.
+    rewrite (nodupb_snoc bytes_eqb (map dv_pk ders) (dv_pk d)); [| assumption | rewrite existsb_map_c; exact E].
+    rewrite !andb_true_iff. repeat split; assumption.
+  - rewrite forallb_app. proj3. rewrite Wu.
+    rewrite (nodupb_snoc v0_unk_eqb unk u); [| assumption | exact E].
+    rewrite !andb_true_iff. repeat split; assumption.
+  - rewrite Hf, Wfs, Wfw. change (0 <? two32) with true. change (0 =? 0) with true. proj3.
+    destruct fw as [w|]; proj3; [specialize (Hsw eq_refl); destruct wu; [|discriminate]|];
+      rewrite !andb_true_iff; repeat split; try assumption; destruct nwu, wu; proj3; try discriminate; reflexivity.
+Qed.
+
+Definition v0_out_inv (o : v0out) : bool := v0_wf_out valid_pk o.
+Inductive v0_out_op : v0out -> v0out -> Prop :=
+| P_redeem o s : v0_len_ok v0_MaxValLen s = true -> v0_out_op o (mk_v0out (Some s) (vo_wscript o) (vo_ders o))
+| P_wscript o s : v0_len_ok v0_MaxValLen s = true -> v0_out_op o (mk_v0out (vo_redeem o) (Some s) (vo_ders o))
+| P_der o d : v0_wf_der valid_pk d = true -> existsb (fun x => bytes_eqb (dv_pk x) (dv_pk d)) (vo_ders o) = false ->
+    v0_out_op o (mk_v0out (vo_redeem o) (vo_wscript o) (vo_ders o ++ [d])).
+Lemma v0_out_op_inv o o' : v0_out_op o o' -> v0_out_inv o = true -> v0_out_inv o' = true.
+Proof.
+  intros Op I. destruct Op as [o s Ls | o s Ls | o d Wd E]; destruct o as [rd ws ders];
+  unfold v0_out_inv, v0_wf_out in *; cbn [vo_redeem vo_wscript vo_ders v0_wf_script] in *; btrue3.
+  - rewrite Ls. rewrite !andb_true_iff. repeat split; assumption.
+  - rewrite Ls. rewrite !andb_true_iff. repeat split; assumption.
+  - rewrite forallb_app, map_app. cbn [forallb map]. rewrite Wd.
+    rewrite (nodupb_snoc bytes_eqb (map dv_pk ders) (dv_pk d)); [| assumption | rewrite existsb_map_c; exact E].
+    rewrite !andb_true_iff. repeat split; assumption.
+Qed.
+
+(* packets: creator (pset.New), then any sequence of the operations above on single inputs/outputs *)
+Inductive v0_reach : v0pset -> Prop :=
+| R_new t : wf_tx t = true -> v0_unsigned_ok t = true -> v0_len_ok v0_MaxValLen (ser_full t) = true ->
+    v0_reach (mk_v0pset t (map (fun _ => v0_in_empty) (t_ins t)) (map (fun _ => v0_out_empty) (t_outs t)) [])
+| R_in p a i b j : v0_reach p -> vp_ins p = a ++ i :: b -> v0_in_op i j ->
+    v0_reach (mk_v0pset (vp_tx p) (a ++ j :: b) (vp_outs p) (vp_unk p))
+| R_out p a o b o' : v0_reach p -> vp_outs p = a ++ o :: b -> v0_out_op o o' ->
+    v0_reach (mk_v0pset (vp_tx p) (vp_ins p) (a ++ o' :: b) (vp_unk p)).
+
+Definition v0_inv (p : v0pset) : Prop :=
+  wf_tx (vp_tx p) = true /\ v0_unsigned_ok (vp_tx p) = true /\ v0_len_ok v0_MaxValLen (ser_full (vp_tx p)) = true /\
+  length (vp_ins p) = length (t_ins (vp_tx p)) /\ length (vp_outs p) = length (t_outs (vp_tx p)) /\
+  forallb v0_inv_in (vp_ins p) = true /\ forallb v0_out_inv (vp_outs p) = true /\ vp_unk p = [].
+
+Lemma forallb_const {A B} (f : B -> bool) (b : B) (l : list A) : f b = true -> forallb f (map (fun _ => b) l) = true.
+Proof. intro H. induction l; cbn; [reflexivity | rewrite H; assumption]. Qed.
+
+Theorem v0_reach_inv p : v0_reach p -> v0_inv p.
+Proof.
+  induction 1 as [t Wt Ut Lt | p a i b j R IH E Op | p a o b o' R IH E Op].
+  - unfold v0_inv. cbn [vp_tx vp_ins vp_outs vp_unk]. rewrite !map_length. repeat split; try assumption.
+    + apply forallb_const. reflexivity.
+    + apply forallb_const. reflexivity.
+  - destruct IH as (A1 & A2 & A3 & A4 & A5 & A6 & A7 & A8). unfold v0_inv. cbn [vp_tx vp_ins vp_outs vp_unk].
+    rewrite E in A4, A6. rewrite app_length in *. cbn [length] in *. rewrite forallb_app in *. cbn [forallb] in *.
+    apply andb_true_iff in A6 as [B1 B2]. apply andb_true_iff in B2 as [B2 B3].
+    rewrite B1, B3, (v0_in_op_inv i j Op B2). repeat split; assumption.
+  - destruct IH as (A1 & A2 & A3 & A4 & A5 & A6 & A7 & A8). unfold v0_inv. cbn [vp_tx vp_ins vp_outs vp_unk].
+    rewrite E in A5, A7. rewrite app_length in *. cbn [length] in *. rewrite forallb_app in *. cbn [forallb] in *.
+    apply andb_true_iff in A7 as [B1 B2]. apply andb_true_iff in B2 as [B2 B3].
+    rewrite B1, B3, (v0_out_op_inv o o' Op B2). repeat split; assumption.
+Qed.
+
+(* on such packets the hop loses nothing: only the order of signatures/derivations and the derived
+   transaction flag may change *)
+Definition v0_in_same (i j : v0in) : Prop :=
+  vi_unk j = vi_unk i /\ vi_fsig j = vi_fsig i /\ vi_fwit j = vi_fwit i /\ vi_wu j = vi_wu i /\
+  match vi_nwu i, vi_nwu j with Some t, Some t' => v0_tx_kept t t' | None, None => True | _, _ => False end /\
+  Permutation (vi_sigs j) (vi_sigs i) /\ vi_sighash j = vi_sighash i /\
+  vi_redeem j = vi_redeem i /\ vi_wscript j = vi_wscript i /\ Permutation (vi_ders j) (vi_ders i).
+
+Lemma v0_inv_in_same i : v0_inv_in i = true -> v0_in_same i (v0_norm_in i).
+Proof.
+  unfold v0_inv_in. intro I. btrue3. destruct i as [nwu wu sigs sh rd ws ders fsg fwt unk].
+  unfold v0_in_same, v0_norm_in, v0_cleared in *. proj3.
+  assert (EW : option_map v0_norm_wu wu = wu).
+  { destruct wu as [o|]; [|reflexivity]. cbn. rewrite v0_wu_canon_norm by assumption. reflexivity. }
+  rewrite EW. destruct (v0_finalized _).
+  - btrue3. match goal with H : (sh =? 0) = true |- _ => apply N.eqb_eq in H; subst sh end.
+    destruct sigs, rd, ws, ders; try discriminate.
+    repeat split; try constructor. destruct nwu; cbn; [apply norm_tx_kept | exact I].
+  - repeat split; try apply v0_sort_perm. destruct nwu; cbn; [apply norm_tx_kept | exact I].
+Qed.
+
+Lemma v0_inv_wf p : v0_inv p -> v0_wf valid_pk valid_sig p = true.
+Proof.
+  intros (A1 & A2 & A3 & A4 & A5 & A6 & A7 & A8). unfold v0_wf, v0_wf_core, v0_wufloor_all.
+  rewrite A1, A2, A3, A4, A5, !Nat.eqb_refl. cbn [andb].
+  assert (X : forall l, forallb v0_inv_in l = true ->
+              forallb (v0_wf_in_core valid_pk valid_sig) l = true /\ forallb v0_sane l = true /\ forallb v0_wufloor_in l = true).
+  { induction l as [|i l IH]; intro B; [repeat split|]. cbn [forallb] in *. apply andb_true_iff in B as [B1 B2].
+    destruct (IH B2) as (C1 & C2 & C3). unfold v0_inv_in in B1. btrue3.
+    repeat split; apply andb_true_iff; split; assumption. }
+  specialize (X _ A6).
+  destruct X as (X1 & X2 & X3). rewrite X1, X2, X3. cbn [andb].
+  change (forallb (v0_wf_out valid_pk) (vp_outs p)) with (forallb v0_out_inv (vp_outs p)). rewrite A7, A8. reflexivity.
+Qed.
+
+(* C08, first clause, for everything the roles can build inside the argument domain *)
+Theorem v0_reach_roundtrip p : v0_reach p ->
+  exists bs q, v0_ser p = Some bs /\ v0_parse valid_pk valid_sig bs = Some q /\
+    v0_tx_kept (vp_tx p) (vp_tx q) /\ Forall2 v0_in_same (vp_ins p) (vp_ins q) /\
+    Forall2 v0_out_kept (vp_outs p) (vp_outs q) /\ vp_unk q = vp_unk p.
+Proof.
+  intro R. pose proof (v0_reach_inv p R) as I. pose proof (v0_inv_wf p I) as W.
+  destruct (v0_parse_ser valid_pk valid_sig p [] W) as [bs [S P]]. rewrite app_nil_r in P.
+  exists bs, (v0_norm p). destruct I as (_ & _ & _ & _ & _ & A6 & _ & A8).
+  repeat split; try assumption; unfold v0_norm; cbn [vp_tx vp_ins vp_outs vp_unk].
+  - apply norm_tx_kept.
+  - induction (vp_ins p) as [|i l IH]; cbn; constructor; cbn [forallb] in A6; apply andb_true_iff in A6 as [B1 B2];
+      [apply v0_inv_in_same; exact B1 | apply IH; exact B2].
+  - induction (vp_outs p) as [|o l IH]; cbn; constructor; [|exact IH].
+    unfold v0_out_kept, v0_norm_out. cbn [vo_redeem vo_wscript vo_ders]. repeat split. apply v0_sort_perm.
+Qed.
+
+End Reach.
+
+(* a representative history: create, add a confidential witness UTXO, two signatures, a sighash
+   type with the 0x40 bit, scripts, a derivation, an unknown; then finalize *)
+Example ex_reach :
+  v0_reach ex_yes ex_yes
+    (mk_v0pset ex_tx1 [mk_v0in None (Some ex_out_conf) [] 0 None None [] None (Some [x02; x00; x00]) []] [] []).
+Proof.
+  pose (i0 := v0_in_empty).
+  pose (i1 := v0_set_wu i0 (Some ex_out_conf)).
+  pose (i2 := v0_set_sigs i1 (vi_sigs i1 ++ [mk_v0sig [x03; x01] [x30; x41]])).
+  pose (i3 := v0_set_sigs i2 (vi_sigs i2 ++ [mk_v0sig [x02; x09] [x30; x01]])).
+  pose (i4 := v0_set_sighash i3 0x41).
+  pose (i5 := v0_set_wscript i4 (Some [x51])).
+  pose (i6 := v0_set_ders i5 (vi_ders i5 ++ [mk_v0der [x02] 7 [0x80000000; 1]])).
+  assert (R0 : v0_reach ex_yes ex_yes (mk_v0pset ex_tx1 [i0] [] [])) by (apply (R_new ex_yes ex_yes ex_tx1); reflexivity).
+  assert (R1 : v0_reach ex_yes ex_yes (mk_v0pset ex_tx1 [i1] [] [])).
+  { apply (R_in _ _ _ [] i0 [] i1 R0 eq_refl). apply O_wu; reflexivity. }
+  assert (R2 : v0_reach ex_yes ex_yes (mk_v0pset ex_tx1 [i2] [] [])).
+  { apply (R_in _ _ _ [] i1 [] i2 R1 eq_refl). apply O_sig; reflexivity. }
+  assert (R3 : v0_reach ex_yes ex_yes (mk_v0pset ex_tx1 [i3] [] [])).
+  { apply (R_in _ _ _ [] i2 [] i3 R2 eq_refl). apply O_sig; reflexivity. }
+  assert (R4 : v0_reach ex_yes ex_yes (mk_v0pset ex_tx1 [i4] [] [])).
+  { apply (R_in _ _ _ [] i3 [] i4 R3 eq_refl). apply O_sighash; reflexivity. }
+  assert (R5 : v0_reach ex_yes ex_yes (mk_v0pset ex_tx1 [i5] [] [])).
+  { apply (R_in _ _ _ [] i4 [] i5 R4 eq_refl). apply O_wscript; reflexivity. }
+  assert (R6 : v0_reach ex_yes ex_yes (mk_v0pset ex_tx1 [i6] [] [])).
+  { apply (R_in _ _ _ [] i5 [] i6 R5 eq_refl). apply O_der; reflexivity. }
+  apply (R_in _ _ _ [] i6 [] _ R6 eq_refl).
+  apply (O_finalize ex_yes ex_yes i6 None (Some [x02; x00; x00])); try reflexivity.
+Qed.
